@@ -251,10 +251,12 @@ fn handle_request(
             req.extract(HoverRequest::METHOD)?;
         let uri = &params.text_document_position_params.text_document.uri;
         let pos = &params.text_document_position_params.position;
-        let hover = state
-            .documents
-            .get(uri)
-            .and_then(|doc| find_hover(doc, &state.workspace, pos.line, pos.character));
+        let hover = state.documents.get(uri).and_then(|doc| {
+            let character = doc.byte_col(pos.line, pos.character);
+            let mut hover = find_hover(doc, &state.workspace, pos.line, character)?;
+            hover.range = hover.range.map(|r| doc.lsp_range(r));
+            Some(hover)
+        });
         conn.sender
             .send(Message::Response(Response::new_ok(id, hover)))?;
     } else if req.method == GotoDefinition::METHOD {
@@ -262,10 +264,21 @@ fn handle_request(
             req.extract(GotoDefinition::METHOD)?;
         let uri = &params.text_document_position_params.text_document.uri;
         let pos = &params.text_document_position_params.position;
-        let location = state
-            .documents
-            .get(uri)
-            .and_then(|doc| find_definition(doc, uri, pos.line, pos.character, &state.workspace));
+        let location = state.documents.get(uri).and_then(|doc| {
+            let character = doc.byte_col(pos.line, pos.character);
+            let mut location =
+                find_definition(doc, uri, pos.line, character, &state.workspace)?;
+            // The range is in the columns of the file the location names.
+            let target = if &location.uri == uri {
+                Some(doc)
+            } else {
+                uri_to_path(&location.uri).and_then(|p| state.workspace.get(&p))
+            };
+            if let Some(target) = target {
+                location.range = target.lsp_range(location.range);
+            }
+            Some(location)
+        });
         let response: Option<GotoDefinitionResponse> = location.map(GotoDefinitionResponse::Scalar);
         conn.sender
             .send(Message::Response(Response::new_ok(id, response)))?;
@@ -277,7 +290,10 @@ fn handle_request(
         let completions = state
             .documents
             .get(uri)
-            .map(|doc| collect_completions(doc, pos.line, pos.character, &state.workspace))
+            .map(|doc| {
+                let character = doc.byte_col(pos.line, pos.character);
+                collect_completions(doc, pos.line, character, &state.workspace)
+            })
             .unwrap_or_default();
         let response = CompletionResponse::List(CompletionList {
             is_incomplete: false,
@@ -914,7 +930,7 @@ fn collect_workspace_symbols(workspace: &WorkspaceIndex, query: &str) -> Vec<Sym
                     kind: shape_to_symbol_kind(shape),
                     location: Location {
                         uri: uri.clone(),
-                        range: ucg_pos_to_range(pos),
+                        range: doc.lsp_range(ucg_pos_to_range(pos)),
                     },
                     container_name: None,
                     deprecated: None,
@@ -997,14 +1013,16 @@ fn encode_semantic_tokens(doc: &AnalysisResult) -> Vec<SemanticToken> {
         };
 
         let line = tok.pos.line.saturating_sub(1) as u32;
-        let col = tok.pos.column.saturating_sub(1) as u32;
+        let byte_col = tok.pos.column.saturating_sub(1) as u32;
+        let col = doc.utf16_col(line, byte_col);
         let delta_line = line - prev_line;
         let delta_start = if delta_line == 0 { col - prev_col } else { col };
+        let end_col = doc.utf16_col(line, byte_col + tok.fragment.len() as u32);
 
         data.push(SemanticToken {
             delta_line,
             delta_start,
-            length: tok.fragment.len() as u32,
+            length: end_col - col,
             token_type,
             token_modifiers_bitset,
         });
